@@ -20,10 +20,10 @@ import (
 
 // faultState delegates to the real /proc/sys State and injects faults.
 type faultState struct {
-	real                State
-	getF, setF, restF   error // applied to the next call of that kind, then cleared
-	setCalls            int
-	log                 []string
+	real              State
+	getF, setF, restF error // applied to the next call of that kind, then cleared
+	setCalls          int
+	log               []string
 }
 
 func (f *faultState) IPv6Autoconf(iface string) (bool, error) {
